@@ -28,8 +28,31 @@ def rx_decoders(ctx):
         if nm in RX_DECODERS and adt.startswith("codec::"):
             fn = [it for it in im["items"] if it["kind"] == "fn" and it["name"] == "try_decode"]
             if fn:
-                out[nm] = (adt, ctx.world.body(fn[0]["def"]))
+                out[nm] = (adt, flat_decoder(ctx, ctx.world.body(fn[0]["def"]), adt))
     return out
+
+
+def flat_decoder(ctx, body, adt):
+    """A decoder with its private plumbing looked at in place: free functions of the same module and inherent
+    methods of the decoded type that are not public API (e.g. `decode_flags`, `decode_properties` split out of
+    try_decode) are inlined; the builder, the Decoder and the primitives stay calls."""
+    module = adt.rsplit("::", 1)[0] + "::"
+    sadt = strip_generics(adt)
+
+    def kept(p_, module=module, sadt=sadt):
+        f_ = ctx.facts.fn(p_)
+        if f_ is None:
+            return True
+        if f_["kind"] == "closure":
+            return True
+        sp = strip_generics(p_)
+        if f_["kind"] == "fn" and not f_.get("impl_trait"):
+            if not f_.get("impl_self") and sp.startswith(module) and sp.count("::") == module.count("::"):
+                return False            # free function of the decoder's module
+            if strip_generics(f_.get("impl_self") or "") == sadt and f_.get("vis") != "pub":
+                return False            # private inherent method of the decoded type
+        return True
+    return ctx.flat_with(body, kept, "rx:" + adt, normalise=False)
 
 
 def property_arms(body):
@@ -508,20 +531,44 @@ def pubid(ctx):
     calls = list(b.calls(r"PublishRxBuilder::packet_identifier$"))
     if not calls:
         raise AnchorLost("PublishRxBuilder::packet_identifier in PublishRx::try_decode")
+    ALL = {"AtMostOnce", "AtLeastOnce", "ExactlyOnce"}
     for i, t in calls:
-        vs = set()
-        other = []
-        for (d, s_) in b.control_deps.get(i, set()) | {x for x in b.control_dep_closure(i)}:
-            c = Cond(b, d)
-            if c.kind == "call" and c.callee == "eq":
-                at = set()
-                for a in c.args:
-                    at |= b.atoms(a)
-                v = {a[2] for a in at if a[0] == "variant" and a[1].endswith("QoS")}
-                if v:
-                    vs |= v
-        ok = vs == {"AtLeastOnce", "ExactlyOnce"}
-        out.append(Inst("PUBID", "packet-identifier-iff-qos>0", ok, b.site(i), "packet identifier decoded under tests of qos against %s" % sorted(vs), "QoS 1 and QoS 2 only"))
+        # the QoS values for which a path reaches the setter: every path from the entry is followed and the tests of
+        # the decoded QoS on it (== / != against a variant, or a match on it) narrow the set
+        reached = set()
+        npaths = 0
+        try:
+            paths = list(b.paths(0, stop=[i], cap=5000))
+        except OverflowError:
+            paths = []
+        for path in paths:
+            if path[-1] != i or not b.feasible(path):
+                continue
+            npaths += 1
+            allowed = set(ALL)
+            for a_, s_ in zip(path, path[1:]):
+                c = Cond(b, a_)
+                if c.kind == "call" and c.callee == "eq":
+                    at = set()
+                    for x in c.args:
+                        at |= b.atoms(x)
+                    v = {y[2] for y in at if y[0] == "variant" and (y[1] or "").endswith("QoS")}
+                    truth = c.holds_on(s_)
+                    if len(v) == 1 and truth is not None:
+                        if truth ^ bool(c.neg):
+                            allowed &= v
+                        else:
+                            allowed -= v
+                elif c.kind == "discr" and (c.si.get("adt") or "").endswith("QoS"):
+                    vals = b.edge_value(a_, s_)
+                    names = {c.si["variants"].get(x) for x in vals if x != "otherwise"}
+                    if "otherwise" in vals:
+                        listed = {c.si["variants"].get(x) for x, _ in c.si["targets"]}
+                        names |= (ALL - listed)
+                    allowed &= names
+            reached |= allowed
+        ok = reached == {"AtLeastOnce", "ExactlyOnce"} and npaths > 0
+        out.append(Inst("PUBID", "packet-identifier-iff-qos>0", ok, b.site(i), "packet identifier decoded for QoS in %s (%d paths to the setter)" % (sorted(reached), npaths), "QoS 1 and QoS 2 only"))
     return out
 
 
